@@ -742,6 +742,8 @@ class PathExec:
             vals = [s.operand(fr, x) for x in split_top(targs)] if targs else []
             return Agg('struct', st, None, [Cell(v) for v in vals])
         if len(segs) == 1 and segs[0] in ('Less', 'Equal', 'Greater'): return mk_enum('Ordering', segs[0], [])
+        if segs[-1] in ('Range',) and nargs is not None:
+            return Agg('struct', 'Range', None, [Cell(s.operand(fr, part.split(': ', 1)[1])) for part in split_top(nargs)])
         if nargs is not None:      # struct not found in the declaration table (macro-generated): MIR prints fields in declaration order
             return Agg('struct', segs[-1], None, [Cell(s.operand(fr, part.split(': ', 1)[1])) for part in split_top(nargs)])
         raise Unsupported(f'aggregate {rv}')
